@@ -8,6 +8,17 @@ from pyvc.sidecar import *  # noqa: F401,F403
 from contracts.conn_model import *  # noqa: F401,F403
 from contracts import conn_model as cm
 
+COMMON_ASSUMPTIONS = [
+    "A-PY: Python semantics as encoded by pyvc",
+    "A-TYPES: arguments have the annotated types",
+    "A-LOOP: asyncio runs one callback at a time; code between two suspension points / call-outs is atomic",
+    "A-CALLBACK: user callbacks (subscribers, the stop callback) may re-enter the public API of the connection (modelled by the Step* havoc) but do not feed packets into it and return to their caller",
+    "A-SETITER: iterating a Python set visits each member exactly once",
+    "A-PROTOBUF: klass() builds an empty message of that class, MergeFromString fills it or raises DecodeError, SerializeToString is injective",
+    "A-FRAME(conn): _params, _loop, _keep_alive_interval, _keep_alive_timeout, log_name, _debug_enabled are assigned only by __init__/set_log_name/set_debug; no code outside APIConnection stores to its other fields (frame-scan obligation)",
+    "Step_conn is a preorder (lemma target step-is-a-preorder)",
+]
+
 S = "self.connection_state"
 INLINE = ["_set_connection_state", "_set_fatal_exception_if_unset", "_async_cancel_pong_timer", "_set_start_connect_future",
           "_set_finish_connect_future", "send_message", "set_log_name", "_async_schedule_keep_alive"]
@@ -167,6 +178,8 @@ def process_packet_contract():
         requires=[("type-number-is-a-varint-or-16-bit-value", "msg_type_proto >= 0")],
         post_hints=f"if defined_id(msg_type_proto):\n    unfold(with_msg({H}, msg, len({H})))",
         ensures=[
+            P("C08", "closed-connection-delivers-nothing", f"implies(old({S}) is CS.CLOSED, ghost.dispatched == old(ghost.dispatched))"),
+            P("C10", "any-valid-message-is-a-sign-of-life", "implies(defined_id(msg_type_proto), n_cuts > 0 or (self._pong_timer is None and not self._send_pending_ping and not armed(old(self._pong_timer))))"),
             P("C12", "undefined-type-ignored", "implies(not defined_id(msg_type_proto), conn_unchanged() and n_writes == 0)"),
             P("C12", "class-is-the-one-api.proto-assigns", "implies(defined_id(msg_type_proto), same_class(class_of(msg), proto_class(msg_type_proto)))"),
             P("C12", "each-subscriber-exactly-once-in-one-pass",
@@ -416,7 +429,8 @@ def targets_for(eng, names, tags):
             continue
         c = allc[n]
         c.tags = list(tags)
-        out.append(contract_target(c))
+        from contracts import native_conn
+        out.append(contract_target(c, replay=native_conn.REPLAYS.get(n)))
     return out
 
 
